@@ -150,7 +150,7 @@ def run(rep, tier, seed, rng):
                    samples=[dict(history=[("run", proj.argv(o["cli"]), o.get("stop", 0)) if o["op"] == "run" else ("edit", o["tree"]) for o in hs[len(named)]["ops"]])])
     rep.assumptions += [
         "a file's (len, mtime) determines its content: the harness gives every version of a file its own mtime; an edit that keeps both is the open finding K08:same-len-same-mtime-edit",
-        "load() and the stat of the loaded files are atomic w.r.t. edits in the model; an edit between them is the open finding K08:edit-between-parse-and-stat (pause hook witness)",
+        "load() and the stat of the loaded files are atomic w.r.t. edits in the model; in the code an edit between them makes the run write no cache (fix of K08:edit-between-parse-and-stat); the pause-hook witness is run on every check and must not reproduce",
         "a kill is SIGABRT at one of seven fault points (hooks); kills inside a single write call are covered by: a truncated bincode cache does not deserialize (not modelled), a partly written ninja file is state NPartial",
         "the 64-bit hash of the -D environment is modelled as equality of the environments",
         "C08_hit_is_fresh: premises same build-dir/root/binary spelling, same -D list, no --partition, --apps narrowing in global mode only; the remaining cases are covered by the correspondence and the implementation-level property check only",
